@@ -1039,6 +1039,12 @@ func (run *simRun) onPanic() {
 			run.violate("C09", "unmapped_log_read", "unmapped_log_read:"+site, "goroutine %v of %s read log memory that had been unmapped: %s\n%s", p.G, who, msg, trimStack(p.Stack))
 			continue
 		}
+		if ls := strings.ToLower(site); run.target == "C16" && (strings.Contains(ls, "transfer") || strings.Contains(ls, "timeoutnow")) {
+			// the node died in the code that runs a leadership transfer: the transfer neither
+			// completed nor failed with an error that leaves the cluster as it was
+			run.violate("C16", "transfer_kills_node", "transfer_panic:"+site, "goroutine %v of %s panicked in the transfer code: %s\n%s", p.G, who, msg, trimStack(p.Stack))
+			continue
+		}
 		run.violate("C15", "panic", sig, "goroutine %v of %s panicked: %s\n%s", p.G, who, msg, trimStack(p.Stack))
 	}
 	run.sim.Panics = nil
